@@ -141,7 +141,7 @@ def run_case(case, stats):
             s = io.BytesIO(d)
             RA(s)
             return s.tell()
-        r = gen.accepted_input(rng, p, tries=3)
+        r = gen.accepted_input(rng, p, tries=3, stats=stats)
         if r is not None:
             inputs.append(r[0][: r[1] + 2])
     inputs.append(b"")  # truncated input: both must fail alike
